@@ -206,6 +206,8 @@ def pe(e):
     if k == 'var':
         return e[1]
     if k == 'bin':
+        if e[1] == 'neg':           # unary minus: ('bin', 'neg', ('lit', 0), e)
+            return '(-(%s))' % pe(e[3])      # not '-F(x)': that is a call of predicate '-F'
         return '(%s %s %s)' % (pe(e[2]), e[1], pe(e[3]))
     if k == 'cmp':
         return '(%s %s %s)' % (pe(e[2]), e[1], pe(e[3]))
